@@ -34,6 +34,14 @@ func (monC18) Step(h *History, st *Step) []Violation {
 	if st.Res.Panic != "" {
 		h.Label("c18:handler-panicked")
 	}
+	if st.Res.FaultHit != "" {
+		// a bank transfer of this message was made to fail: it must be rejected, whatever the preconditions say
+		if st.Res.OK {
+			return []Violation{viol("C18/bank-failure-swallowed/"+st.Op.Kind, "step #%d: %s was accepted although its bank transfer %s failed", st.Idx, st.Op.String(), st.Res.FaultHit)}
+		}
+		h.Label("c18:rejected/" + st.Op.Kind + "/injected-bank-failure")
+		return nil
+	}
 	if exp.Accept != st.Res.OK {
 		vs = append(vs, viol("C18/accept-mismatch/"+st.Op.Kind+"/"+orStr(exp.Reason, "should-accept"),
 			"step #%d at %s: %s was %s; the documented preconditions say %s (%s). impl error: %s", st.Idx, tfmt(st.Now), st.Op.String(), okStr(st.Res.OK), okStr(exp.Accept), orStr(exp.Reason, "all preconditions hold"), firstLine(st.Res.Err)))
@@ -123,6 +131,9 @@ func allowCanon(s *Snap) string {
 
 func (monC10) Step(h *History, st *Step) []Violation {
 	var vs []Violation
+	if v := rejectedAllowListCall("C10", st); v != nil {
+		return v
+	}
 	pre, post := st.Pre, st.Post
 	switch st.Op.Kind {
 	case OpMsgAddAllowed:
